@@ -96,6 +96,11 @@ def labels : List (List (Int × String)) := [
   [(4, "External"), (3, "Worker"), (1, "Leader"), (2, "Main")],
   [(100, "Progressing"), (101, "Resting"), (102, "Absorbing noise")]
 ]
+def stTaskBody : Int := 1
+def stUnknownSs : Int := 2
+def stProgressing : Int := 100
+def stResting : Int := 101
+def stAbsorbing : Int := 102
 /-- (category, value, channel, action, state value); action: 1 push, 2 pop, 3 set, 4 ignore -/
 def table : List (Nat × Nat × Nat × Nat × Int) := [
   (66, 66, 2, 2, 14),
